@@ -3,4 +3,12 @@ CLAIMS = {
    technique="algebraic normal-form identities over the extracted metric formulas; location-set dataflow",
    text="Proves, as polynomial identities over the source expressions of the metric method (both arms of `orthogonal`), that g^ij and g_ij are inverse, J=hy/Bpxy with J^2 det(g^ij)=1, the closed forms of the statement, that the two arms agree at beta=0, that g_23 = g_33*hy*(zShift integrand) on every non-raising sign path, and the beta relations; plus a dataflow (E4b) that every metric field has computed data at centre/xlow/ylow. The identities hold for all values of the symbols (any equilibrium, both signs of Bp), which no finite test sample gives. It decides the formulas, not the numbers.",
    note="Trusted: numpy elementwise semantics, MultiLocationArray ufunc protocol as modelled in hv/locsets.py, sign(Bpxy)=bpsign (proved structurally in C03.R4). Not decided: covariant components vs actual displacements, accuracy of beta."),
+ "C18": dict(claimed=True, engine="E3-alg + extract",
+   technique="formal differentiation of extracted source expressions; structural copy-paste rule",
+   text="Proves by formal differentiation that the helper chain (Bzeta, B2, dBzetadR..dBdZ) consists of the exact R/Z derivatives of Bp_R=psi_Z/R, Bp_Z=-psi_R/R, Bzeta=fpol(psi)/R, B2 and sqrt(B2), that div B=0, that each interpolant arm (spline, dct) defines the same nine functions with their defining relations, that DCT_2D's derivative summands are the derivatives of its interpolation summand and its coefficient normalisation is the DCT-II/III inversion, that the per-location fan-out blocks are consistent, and that fpolprime=d fpol/dpsi in all three Equilibrium implementations. Identities cover all psi arrays; tests sample three.",
+   note="Trusted: RectBivariateSpline dx/dy semantics, scipy dct type-II default, numpy.clip identity inside the domain. Not decided: interpolation error, node reproduction numerics."),
+ "C07": dict(claimed=True, engine="E3-alg + extract + E4b-locsets",
+   technique="formal differentiation and algebraic normal form over the extracted curvature formulas",
+   text="Proves as identities (both interpolant arms, both values of orthogonal, both sign paths of Bp) that the three local curl components are the cylindrical curl of B/B^2, that curl_x, curl_y, curl_z are its projections on grad psi, the stated grad y and grad z, that |grad y|=1/(hy cosBeta), and bxcv=Bxy/2*curl; for the x-y form only that referenced fields exist and non-orthogonal use is refused.",
+   note="Trusted: cylindrical curl formula with d/dzeta=0. Not decided: agreement of the two curvature formulations to discretisation error, smoothing."),
 }
